@@ -142,6 +142,12 @@ def run(prog: Program, rep, tier: str) -> None:
                           f"module-level `{t.id}` is a constant / logger / function object" + (f" (listed exception: {why})" if why else ""), f"{mod.relpath}:{st.lineno}")
         for node in ast.walk(mod.tree):
             if isinstance(node, (ast.Global, ast.Nonlocal)):
+                # the one listed exception: the one-shot flag of eval.warn_once kept as a nonlocal instead of a list cell (the closure
+                # is separately shown to log only and return nothing)
+                if isinstance(node, ast.Nonlocal) and mod.name == "pygradflow.eval":
+                    wo_ = mod.functions.get("warn_once")
+                    if wo_ is not None and any(node in ast.walk(nf.node) for nf in wo_.nested.values()):
+                        continue
                 rep.fail("module-state", mod.name, U(node), "VIOLATED: global / nonlocal statement (a hidden state carrier)", f"{mod.relpath}:{node.lineno}")
         for ci in mod.classes.values():
             is_enum = any(b in ("Enum", "Flag", "enum.Enum", "enum.Flag") for b in ci.ext_bases)
